@@ -9,7 +9,7 @@ TRUSTED_BASE = [
     "third-party crates (atomic-arena, rtrb, triple_buffer, glam, symphonia) are modelled or exercised, not verified",
 ]
 
-HOOK_COMMITS = ["0629e56", "a0e4ab0"]
+HOOK_COMMITS = ["0629e56", "a0e4ab0", "39d963f"]
 
 # properties not (yet) claimed, with the reason shown in MANIFEST.not_applicable
 NOT_YET = {}
